@@ -38,7 +38,7 @@ def work(job):
             ch, hist = (C.gen_late_chart, C.gen_hist_chart)[(-seed) % 2](-seed)
             if dm == 'null' and ch.binding == 'late': dm = 'lua'
         else:
-            ch, hist = c01lib.make_case(seed, dm if dm != 'promela' else 'lua')
+            ch, hist = c01lib.make_case(seed, dm)
         ref = c01lib.ref_run(ch, hist, pend)
         if ref.diverged: continue
         xml = C.render(ch, dm)
